@@ -61,7 +61,8 @@ def _axis_worker(item):
         cube = inputs.cube((len(il), len(xl), 4), par.G['seed'] + ci)
         if c['route'] == 'numpy':
             dt = np.int64 if ci % 2 else np.intc
-            writers.numpy_to_sgz(p, cube, 32, (4, 4, -1), ilines=il.astype(dt), xlines=xl.astype(dt), samples=np.arange(4) * 4.0)
+            rate, bs = c.get('setting') or (32, (4, 4, -1))
+            writers.numpy_to_sgz(p, cube, rate, tuple(bs), ilines=il.astype(dt), xlines=xl.astype(dt), samples=np.arange(4) * 4.0)
         else:
             sgy = p + '.sgy'
             inputs.write_segy(sgy, cube, il, xl, np.arange(4) * 4.0, sorting=('il', 'xl')[(ci // 3) % 2])       # inline- or crossline-sorted file
@@ -96,7 +97,7 @@ def _axis_worker(item):
             with env.quiet():
                 with SgzCropper(p) as cr:
                     cr.write_cropped_file_by_indexes(q, (lo, len(il)), None, None)
-            a0 = (lo // 4) * 4
+            a0 = (lo // (c.get('setting') or (32, (4, 4, -1)))[1][0]) * (c.get('setting') or (32, (4, 4, -1)))[1][0]
             out['crop'] = {'g': _read_geom(q)[0], 'il': il[a0:].tolist(), 'xl': xl.tolist()}
             os.remove(q)
         return out
@@ -209,6 +210,11 @@ def plan(run):
                    ({'start': -7, 'step': 5, 'count': 9}, {'start': 1000000, 'step': -333333, 'count': 6})):
         cases.append({'il': il, 'xl': xl, 'K': 1, 'route': 'numpy', 'crop': None})
         cases.append({'il': xl, 'xl': il, 'K': 1, 'route': 'segy', 'crop': None})
+    # counts that do not fit 8 or 16 bits: 256 / 300 lines on one axis, more than 65535 traces (the count fields are 32-bit words)
+    for il, xl, crop in (({'start': 1000, 'step': 2, 'count': 256}, {'start': -50, 'step': 1, 'count': 257}, None),
+                         ({'start': 5, 'step': 1, 'count': 3}, {'start': 70000, 'step': 3, 'count': 300}, None),
+                         ({'start': 1, 'step': 1, 'count': 260}, {'start': 1, 'step': 1, 'count': 254}, 2)):
+        cases.append({'il': il, 'xl': xl, 'K': 1, 'route': 'numpy', 'crop': crop, 'setting': [2, [64, 64, 4]]})
     # sample axis
     if quick:
         ints = sorted(set(list(range(1, 40)) + [250, 333, 499, 500, 501, 999, 1000, 1001, 1999, 2000, 2001, 2500, 3999, 4000, 4001, 7813,
@@ -306,6 +312,8 @@ def fixtures(run):
 
 def judge_axis(run, c, r, ev, W, K):
     case = {'il': c['il'], 'xl': c['xl'], 'K': c['K'], 'route': c['route']}
+    if c.get('setting'):
+        case['setting'] = c['setting']
     run.case(case)
     if isinstance(r, par.Crash) or 'error' in r:
         run.fail('C05.converts', case, str(r if isinstance(r, par.Crash) else r['error']), 'a readable file')
